@@ -78,9 +78,15 @@ class Recorder:
     'short' (writes only: write the first half, then raise; other calls as 'pre').
     """
 
-    def __init__(self, root, fail_at=None, variant="pre", keep_data=False):
+    def __init__(self, root, fail_at=None, variant="pre", keep_data=False, fail_read_at=None):
         self.root = os.path.abspath(root)
         self.fail_at = fail_at
+        # READ side (wave 3): open-for-reading and read calls issued through the wrappers are counted separately
+        # (rn / rkinds); fail_read_at = k fails the k-th of them (variant 'pre': before the call has an effect,
+        # 'post': open succeeded / bytes were consumed, then the failure)
+        self.fail_read_at = fail_read_at
+        self.rn = 0
+        self.rkinds = []
         self.variant = variant
         self.keep_data = keep_data
         self.trace = []         # model calls: tuples
@@ -130,13 +136,31 @@ class Recorder:
             return self.variant
         return None
 
+    def _rtick(self, kind, path):
+        """Count one read-side call; return the variant to apply if this is the failing one."""
+        self.rn += 1
+        self.rkinds.append(kind)
+        if self.fail_read_at is not None and self.rn == self.fail_read_at and self.fired is None:
+            self.fired = (self.rn, kind, path)
+            self.fired_at = len(self.trace)
+            return self.variant
+        return None
+
     # -- the wrappers ------------------------------------------------------
     def open_with(self, path, mode="rb"):
         writing = any(ch in mode for ch in "wa+x")
         rel = self.rel(path)
         if not writing:
-            self.reads.append(rel if rel is not None else str(path))
-            return open(path, mode)
+            relp = rel if rel is not None else str(path)
+            v = self._rtick("ropen", relp)
+            if v is not None and v != "post":
+                raise Fault("open for reading %s" % relp)
+            f = open(path, mode)
+            self.reads.append(relp)
+            if v == "post":
+                f.close()
+                raise Fault("open for reading %s (after opening it)" % relp)
+            return _RHandle(self, f, relp)
         relp = rel if rel is not None else "../" + str(path)
         v = self._tick("open", relp)
         if v in ("pre", "short"):
@@ -173,6 +197,19 @@ class Recorder:
         _active.remove(self)
 
 
+def rec_fs(rec):
+    """an fsspec file system object (local) whose open() goes through the recorder's wrapper: `open_with=fs.open` then gives the
+    ParquetFile a `.fs` (as pandas / dask do), so that code paths that list, remove or rename through the file system object run;
+    what they remove / rename is seen by the audit hook"""
+    from fsspec.implementations.local import LocalFileSystem
+
+    class RecFS(LocalFileSystem):
+        def open(self, path, mode="rb", **kw):
+            return rec.open_with(self._strip_protocol(path), mode)
+
+    return RecFS(skip_instance_cache=True)
+
+
 class _Handle:
     def __init__(self, rec, f, relp):
         self._rec, self._f, self._p = rec, f, relp
@@ -194,6 +231,16 @@ class _Handle:
             raise Fault("write %s (after writing)" % self._p)
         return n
 
+    def read(self, *a):
+        # a handle opened 'rb+' (single-file append) reads the old footer through the same handle
+        v = self._rec._rtick("read", self._p)
+        if v is not None and v != "post":
+            raise Fault("read %s" % self._p)
+        b = self._f.read(*a)
+        if v == "post":
+            raise Fault("read %s (after consuming %d bytes)" % (self._p, len(b)))
+        return b
+
     def close(self):
         rec = self._rec
         v = rec._tick("close", self._p)
@@ -208,6 +255,34 @@ class _Handle:
 
     def __exit__(self, *a):
         self.close()
+
+    def __getattr__(self, name):
+        return getattr(self._f, name)
+
+
+class _RHandle:
+    """a file opened for reading through the wrapper: its read calls are counted (and can be made to fail)"""
+
+    def __init__(self, rec, f, relp):
+        self._rec, self._f, self._p = rec, f, relp
+
+    def read(self, *a):
+        v = self._rec._rtick("read", self._p)
+        if v is not None and v != "post":
+            raise Fault("read %s" % self._p)
+        b = self._f.read(*a)
+        if v == "post":
+            raise Fault("read %s (after consuming %d bytes)" % (self._p, len(b)))
+        return b
+
+    def __enter__(self):
+        return self
+
+    def __exit__(self, *a):
+        self._f.close()
+
+    def __iter__(self):
+        return iter(self._f)
 
     def __getattr__(self, name):
         return getattr(self._f, name)
@@ -315,11 +390,21 @@ def trace_json(trace, lim=400):
 
 
 def md_open_index(trace):
-    """index of the first write-open of _metadata in a trace, or None."""
+    """index of the COMMIT POINT of a trace: the first call that can change _metadata - a write-open of it, a rename onto it (or of
+    it), its removal (Dataset/CrashGen.v touches_md) - or None."""
     for i, c in enumerate(trace):
         if c[0] == "openw" and c[1] == MD:
             return i
+        if c[0] == "rename" and MD in (c[1], c[2]):
+            return i
+        if c[0] == "remove" and c[1] in (MD, ""):
+            return i
     return None
+
+
+def summaryish(p):
+    """_metadata, _common_metadata, or a temporary file they are written through (a root-level name holding '_metadata')"""
+    return isinstance(p, str) and "/" not in p and "_metadata" in p
 
 
 def refs_of(pf):
@@ -374,3 +459,27 @@ def coqchk_finish(ctx, proc, name, timeout=1500):
         return
     ok = proc.returncode == 0 and "* Axioms: <none>" in out and "type-in-type: <none>" in out
     ctx.obligation("coqchk -o props/%s.vo: re-checked by the stand-alone kernel, no axioms" % name, ok, out[-600:] if not ok else "")
+
+
+# ---------------------------------------------------------------------------
+def partnames_translator(ctx):
+    """translators/partnames2coq.py: regenerate Gallina from writer.find_max_part, the part-name computation of writer.write_multi,
+    util.join_path, util.path_string and api.PART_ID and re-prove coq/genproofs/GenPartNamesProofs.v over the generated text (tie of
+    the hand models of Dataset/FsPaths.v to the code as it is now).  A construct outside the translator's fragment, or generated
+    text coqc rejects, is recorded as translator_fallback (the hand model + function-against-function correspondence remain)."""
+    import sys
+    from harness import common as C
+    sys.path.insert(0, C.VERIF)
+    from translators import partnames2coq
+    r = partnames2coq.run(C.REPO, ctx.gen_dir)
+    ctx.extra["translator"] = {"GenPartNames": {k: v for k, v in r.items() if k not in ("file", "text")}}
+    if r["status"] != "translated":
+        ctx.notes.append("translator_fallback: GenPartNames: %s" % r["reason"])
+        return False
+    ok, out = C.coqc(r["file"], extra_q=[(ctx.gen_dir, "PqGen")])
+    if not ok:
+        ctx.notes.append("translator_fallback: GenPartNames: generated file rejected by coqc: %s" % out[-300:])
+        ctx.extra["translator"]["GenPartNames"]["status"] = "translator_fallback"
+        return False
+    ctx.coq_file(os.path.join(C.COQ, "genproofs", "GenPartNamesProofs.v"), extra_q=[(ctx.gen_dir, "PqGen")])
+    return True
